@@ -107,6 +107,15 @@ THEOREMS.update({
     'C04_model_is_source_cli_train_model': 'the translation of the whole function train_model.main regenerated on this run equals, for every record L of library functions and all parsed arguments, Cli.cli_train_model: the model constructed with EXPERIMENT_SPACE = ExperimentSpace.from_screen(loaded screen) is handed add_observations(screen.subset_observed()) - the observed subset only, no call when it is None - then sampling.sample(model, ThetaHolder(--n-samples), seed, n_chains, chain_index, n_burnin, thin, progress) and the result is saved',
 })
 EXPLANATION += ("  CLI wrapper: train_model.main is re-translated as a WHOLE function on every run (Generated/SrcCli.v) and proved equal to Model/Cli.v.  The link trusts the translator harness/py2gal.py (for these links extended by cfg typed_effects, kwcalls keys `module.function`, state_calls assigned to a tuple), the representation of Model/Cli.v (parsed arguments = a record of the plain argparse results, get_args() not translated = the primitive `get_args()` yielding that record; a main() denotes the list of (path, content) files it writes; `L` = ANY record of library functions over abstract types) and EXACTLY these primitives of harness/src_functions.py, each one field read / one library or constructor call standing for the function of that name (whose own link, where it exists, is the one of its property): CLI_TRAIN_MODEL: the fields of `args` read as the record's projections (a store to one is refused); ignored: log_config.configure_logging(args), logger.info/warning; args.model_params read / updated as one variable (attr_vars), model_params[EXPERIMENT_SPACE] = e (tm_set_space), args.model_cls(**params), Screen.load_h5(p), ExperimentSpace.from_screen(s), ThetaHolder(n_thetas=n), s.subset_observed() (an Optional subset), typed effect model.add_observations(d) with d a SUBSET (an Optional is unwrapped under the `is not None` test; a Screen is refused), the keyword call sampling.sample(...) with its defaults, typed effect r.save_h5(p). ")
+THEOREMS.update({
+    'C04_model_is_source_cli_args_get_args': 'the translation of the WHOLE function train_model.get_args (parse_args() = the raw namespace) equals Cli.tm_get_args: class lookup by --model among BayesianModel subclasses, its required-argument annotations, --model-param cast by them ({} when none), then model_cls stored',
+    'C04_model_is_source_cli_args_train_model': 'train_model.main translated as a whole command (get_args() = the translated get_args; args.model_cls(**args.model_params) = construct on the two attributes, the experiment space stored into the parameter dict first) equals Cli.cli_train_model_cmd',
+    'C04_model_is_source_cli_args_train_model_world': 'the same with the introspection record made of the TRANSLATED get_class / get_required_init_args_with_annotations (Props/C18.v)',
+})
+import c18_args
+EXPLANATION += c18_args.explanation(["get_args", "cmd"], "train_model.get_args and train_model.main as a whole command are") + (
+    "cast_dict_to_type, str_to_bool and the introspection functions are linked in Props/C18.v (their primitives are listed in C18's evidence).  "
+    "Runtime: get_args() is run on generated command lines (kind cli_args): model_cls is the class named, model_params are typed by its annotations.  ")
 
 SDC = "sdc"
 INT = "interaction"
@@ -589,6 +598,8 @@ def gen(rng, tier):
     for i in range(16 if q else 120):
         sd = gen_structured(rng, tier)
         yield dict(kind="cli", model=rng.choice([SDC, INT]), screen=sd, seed=rng.randint(0, 1000))
+    import c18_args
+    yield from c18_args.gen_get_args(rng, tier, only="train_model")
 
 
 # --------------------------------------------------------------------------- run
@@ -710,6 +721,9 @@ def _readonly_queries(screen):
 
 
 def run(desc):
+    if desc.get("kind") == "cli_args":      # get_args() of this property's wrapper on generated command lines (harness/c18_args.py)
+        import c18_args
+        return c18_args.run_case(desc)
     kind = desc["kind"]
     model = desc["model"]
     flags = impl_flags()
@@ -917,6 +931,8 @@ def _fine_signature(desc):
 
 def shrink(desc):
     """drop one row at a time, keeping the same predicate failure (same signature)"""
+    if desc.get("kind") == "cli_args":
+        return
     sd = desc["screen"]
     rows = sd["rows"]
     if len(rows) <= 1:
